@@ -569,9 +569,14 @@ fn report(ev: &mut Ev, sig: &str, what: &str, replay: J, found: bool) {
     ev.violation(sig, what, replay, found);
 }
 
-fn reach_has_cycle(tbl: &Tbl, root: usize) -> bool {
-    let (ty, _) = tbl.reachable(&[root]);
-    ty.iter().any(|i| tbl.kind(*i) == "cycle")
+/// Mechanism test of the one open defect of `check_type_relation` on recursive types (C09,
+/// `compat=resolved-cycle-keeps-inner-stack`): the verdict `tid ≤ p` is recomputed with the model's
+/// `checkRelT` — the code as it is, except that a resolved `Cycle` continues below the enclosing types
+/// of the boundary it points to. That does not change what the two types mean, so a refusal confirms
+/// that the acceptance came from back-references counted on a stack that still held the types between
+/// the reference and its target.
+fn mech_resolved_cycle(model: &mut TModel, tid: usize, p: usize) -> bool {
+    model.ask(&format!("(compatT {tid} {p})")) == "false"
 }
 
 /// model vs implementation on one input; returns the implementation's tables when available
@@ -650,8 +655,8 @@ fn oracle(ev: &mut Ev, model: &mut TModel, inp: &Input, t: &Tables, what: &str) 
                 let fo = classes.get(tid) == Some(&'f') && classes.get(p) == Some(&'f');
                 let sig = if fo {
                     format!("istype-unsound:{}-vs-{}", inp.tbl.kind(tid), inp.tbl.kind(p))
-                } else if reach_has_cycle(&inp.tbl, tid) || ans.contains("(f ") || ans.contains("(p ") {
-                    "istype=left-cycle-resolved-on-right-stack".to_string()
+                } else if mech_resolved_cycle(model, tid, p) {
+                    "istype=resolved-cycle-keeps-inner-stack".to_string()
                 } else {
                     format!("istype-unsound:{}-vs-{} (recursive/higher-order)", inp.tbl.kind(tid), inp.tbl.kind(p))
                 };
